@@ -37,7 +37,7 @@ class PROP(Prop):
     def build(self, proto, outcomes, rng):
         # also the broadcast address 0 and the reserved ids: a device (or gateway, or simulator) that answers them is answered to
         slave = rng.randrange(1, 248) if rng.random() < 0.7 else rng.choice([0, 0, 0, 248, 255])
-        ops, expect, whole = [], [], []
+        ops, expect, whole, frames = [], [], [], []
         for i, o in enumerate(outcomes):
             req = simple_req(rng)
             fc = mb.req_fc(req)
@@ -89,11 +89,12 @@ class PROP(Prop):
                 R = mb.rscript([good[:max(1, len(good) // 2)]], ["e:ConnectionReset"])
             ops.append(cligen.call_op(req, R=R))
             expect.append(want)
+            frames.append(cligen.frame(proto, i, slave, mb.spec_req_pdu(req)).hex() if mb.spec_req_size(req) <= 253 else "")
             # the reply is exactly one frame whose extent its own header / length table announces: the call has to
             # consume it completely before it returns ("never gives up before consuming the reply")
             zero_len = (o == "bad_mbap" and "d" in R and bytes.fromhex("".join(e[1:] for e in R.split(",") if e.startswith("d")))[4:6] == b"\x00\x00")
             whole.append(o in ("good", "exception", "wrong_header", "wrong_function", "undecodable") or (o == "bad_mbap" and not zero_len))
-        return Case(cligen.cli_line(proto, slave, ops), {"outcomes": outcomes, "expect": expect, "proto": proto, "whole": whole})
+        return Case(cligen.cli_line(proto, slave, ops), {"outcomes": outcomes, "expect": expect, "proto": proto, "whole": whole, "frames": frames})
 
     def oracle(self, c):
         rs = cligen.split_results(c.impl)
@@ -106,6 +107,8 @@ class PROP(Prop):
             q = cligen.unread(r)
             if "PANIC" in res:
                 return "call %d panicked" % i
+            if w.hex() != c.meta["frames"][i]:
+                return "call %d (%s) did not perform its OWN exchange: it wrote %s, its request frame is %s" % (i, c.meta["outcomes"][i], w.hex()[:60] or "nothing", c.meta["frames"][i][:60] or "nothing (refused)")
             if c.meta["whole"][i] and len(w) > 0 and prev_unread == 0 and q not in (0, None):
                 return "call %d (%s) returned %s before consuming the reply to the request it had transmitted (%d read(s) of that reply still pending)" % (
                     i, c.meta["outcomes"][i], res[:40], q)
